@@ -2,8 +2,11 @@ package props
 
 import (
 	"fmt"
+	"os"
 	"path/filepath"
 	"strings"
+
+	"github.com/XiXi-2024/xixi-kv/vhook"
 
 	"verif/harness/core"
 	"verif/harness/mon"
@@ -18,7 +21,7 @@ func init() { core.Register(c13{}) }
 func (c13) ID() string    { return "C13" }
 func (c13) Level() string { return "exploration" }
 func (c13) Rule() string {
-	return "cases = generated op sequences (puts, deletes, batches with and without Sync, rotations, oversized values, explicit Sync, merges, Close/reopen) under each SyncStrategy x BytesPerSync {1,300,4096,1 MiB} x FileIOType; an online checker over the hooked write/sync event stream keeps, per data-directory file, written and durable offsets (durable advances only at a COMPLETED sync event) and attributes every write (with its padding bytes computed by the independent decoder) to the API call in flight; rules evaluated at every API return: Always -> every byte written by Put/Delete calls is durable; Threshold(B) -> non-padding bytes written by Put/Delete calls and not yet durable < B; Sync batch -> everything written during the call incl. the sealing record is durable; Sync() and Close() -> every data-directory file has written == durable; at the creation of data file n+1 every other data file is fully durable. strace cases: the same kind of workload runs in a child under `strace -f -y -e trace=write,fsync,fdatasync`; per data file the bytes written and the number of successful fsync calls seen by the kernel must equal the hook log (so the checker does not merely check its own hooks). Non-trivial: case with >=1 rotation, >=1 Sync batch or explicit Sync, and >=40 rule evaluations; distinct = hash of (config, op list)"
+	return "cases = generated op sequences (puts, deletes, batches with and without Sync, rotations, oversized values, explicit Sync, merges, Close/reopen; every fourth case starts on a directory left by an unclean shutdown - torn last record under standard I/O, pre-extended files under mmap - so that the policy is also checked on files whose size was reset by recovery) under each SyncStrategy x BytesPerSync {1,300,4096,1 MiB} x FileIOType; an online checker over the hooked write/sync event stream keeps, per data-directory file, written and durable offsets (durable advances only at a COMPLETED sync event) and attributes every write (with its padding bytes computed by the independent decoder) to the API call in flight; rules evaluated at every API return: Always -> every byte written by Put/Delete calls is durable; Threshold(B) -> non-padding bytes written by Put/Delete calls and not yet durable < B; Sync batch -> everything written during the call incl. the sealing record is durable; Sync() and Close() -> every data-directory file has written == durable; at the creation of data file n+1 every other data file is fully durable. strace cases: the same kind of workload runs in a child under `strace -f -y -e trace=write,fsync,fdatasync`; per data file the bytes written and the number of successful fsync calls seen by the kernel must equal the hook log (so the checker does not merely check its own hooks). Non-trivial: case with >=1 rotation, >=1 Sync batch or explicit Sync, and >=40 rule evaluations; distinct = hash of (config, op list)"
 }
 func (c13) Assumptions() []string {
 	return []string{"a completed fsync (FileIO) or msync/Flush (MMap) event makes all bytes written to that file before the event durable",
@@ -191,6 +194,15 @@ func (c13) Run(c core.Case, w *core.Worker) core.Result {
 	}
 	defer io.Install()()
 	g := &core.Gen{R: r, Keys: core.GenKeys(r, sc.NKeys), Cfg: sc.Cfg, EndOff: io.ActiveEnd, NoRestart: true, MaxVal: 70 << 10}
+	if c.Index%4 == 3 {
+		// the run starts on a directory left by an unclean shutdown: a torn record at the end of
+		// the newest file (standard I/O) or files still at their pre-extended size (mmap)
+		if !c13Unclean(dir, sc.Cfg, r, s) {
+			res.Violate("harness: could not prepare the unclean directory", map[string]string{"class": "harness"}, nil)
+			return res
+		}
+		res.Add("cases_starting_after_unclean_shutdown", 1)
+	}
 	if !s.Open() {
 		return res
 	}
@@ -253,4 +265,56 @@ func (c13) Run(c core.Case, w *core.Worker) core.Result {
 		res.Sample = map[string]any{"config": sc.Cfg, "ops": firstN(s.Log, 30), "rule_evaluations": evals}
 	}
 	return res
+}
+
+// c13Unclean writes a short history with the hooks detached, closes, and then makes the
+// directory look like the process had died: standard I/O gets a torn record appended to the
+// newest data file, mmap files are extended back to the 512 MiB unit. The model of s is kept.
+func c13Unclean(dir string, cfg core.Config, r *core.Rng, s *core.Session) bool {
+	old := vhook.Set(nil)
+	defer vhook.Set(old)
+	if !s.Open() {
+		return false
+	}
+	for i := 0; i < 12 && !s.Dead; i++ {
+		s.Exec(core.Op{Kind: "put", Key: []byte(fmt.Sprintf("pre%d", i%4)), VLen: r.Range(10, 900), VSeed: r.U64() | 1})
+	}
+	if s.Dead || !s.Close() {
+		return false
+	}
+	files := core.DataFiles(dir)
+	if len(files) == 0 {
+		return false
+	}
+	newest := filepath.Join(dir, files[len(files)-1])
+	if cfg.FileIO == 0 {
+		st, err := os.Stat(newest)
+		if err != nil {
+			return false
+		}
+		// a chunk header announcing more payload than follows: header (crc irrelevant) + partial payload
+		room := int(vfmt.Block - st.Size()%vfmt.Block)
+		if room < 64 {
+			return true // too close to the block end to place a torn chunk; leave the directory clean
+		}
+		want := r.Range(40, room-vfmt.Header-1)
+		have := r.Range(1, want-1)
+		torn := make([]byte, vfmt.Header+have)
+		torn[4], torn[5], torn[6] = byte(want), byte(want>>8), 0
+		copy(torn[vfmt.Header:], core.FillValue(r.U64()|1, have))
+		f, err := os.OpenFile(newest, os.O_WRONLY|os.O_APPEND, 0644)
+		if err != nil {
+			return false
+		}
+		f.Write(torn)
+		f.Close()
+		return true
+	}
+	for _, name := range files {
+		p := filepath.Join(dir, name)
+		if err := os.Truncate(p, 512<<20); err != nil {
+			return false
+		}
+	}
+	return true
 }
